@@ -9,7 +9,7 @@ from engine.core import Report
 from engine import ch
 
 D = ('sqlite', 'postgres', 'mysql', 'oracle')
-HARNESSES = (('normalize_name', 'normalize_name_fold')
+HARNESSES = (('normalize_name', 'normalize_name_fold', 'time_precision')
              + tuple('index_pair_' + d for d in D) + ('index_flags',)
              + tuple('fk_pair_' + d for d in D) + ('fk_flags',) + tuple('m2m_names_' + d for d in D)
              + tuple('column_' + d for d in D) + ('table_ddl',)
